@@ -76,6 +76,19 @@ def run(ctx):
             ctx.fail("two renderings of one type structure (%s) are not given the same shape" % mode, l1,
                      {"text_a": a[:300], "text_b": b[:300], "result_a": x[:200], "result_b": y[:200], "other_case": l2},
                      known=known)
+    # very long homogeneous arrays / wide objects: the repetition count must not matter at any scale
+    big = []
+    for n in (2, 1000, 40000, 70000):
+        big.append(("[" + ",".join(["1"] * n) + "]", "OK A0(#0)"))
+        big.append(("[\n" + ",\n".join(["  true"] * n) + "\n]", "OK A0(B0)"))
+    big.append(("[" + ",".join(['{"a":1,"b":"x"}'] * 12000) + "]", "OK A0(O0{61:#0,62:S0})"))
+    big.append(("{" + ",".join('"k%d":null' % i for i in range(20000)) + "}", None))
+    rb = ctx.impl(["from_str\t" + hx(t) for t, _ in big])
+    for (t, exp), r in zip(big, rb):
+        if (exp is not None and r != exp) or (exp is None and not r.startswith("OK O0{")):
+            ctx.fail("the shape of a long homogeneous array / wide object depends on its length", "from_str\t" + hx(t),
+                     {"text_head": t[:60], "length": len(t), "result": r[:120], "expected": exp})
+    ctx.notes["big_repetition_cases"] = len(big)
     ctx.notes["pairs_by_mode"] = modes
     ctx.notes["pairs_failing_known_or_not"] = len(bad)
     # ---- the model's renderer: from_str(render_text ch d) on the implementation = infer_text d of the model
